@@ -69,6 +69,13 @@ fn main() {
     let code = match args.id.as_str() {
         "C03" => props::structural::run("C03", &args),
         "C04" => props::structural::run("C04", &args),
+        "C05" => props::gate::run(&args),
+        "C05-worker" => {
+            let lo = std::env::var("C05_LO").ok().and_then(|x| x.parse().ok()).unwrap_or(0);
+            let hi = std::env::var("C05_HI").ok().and_then(|x| x.parse().ok()).unwrap_or(0);
+            props::gate::worker(&args, lo, hi, std::env::var("C05_ANNOUNCE").is_ok())
+        }
+        "C05-one" => props::gate::one(&std::env::var("C05_FILE").unwrap_or_default()),
         "C10" => props::dwarf::run(&args),
         "C11" => props::codemap::run(&args),
         "C09" => props::parallel::run(&args),
